@@ -249,6 +249,40 @@ pub fn cli_interleaved_export(dir: &str, necu: usize, n: usize, step_ms: u32) ->
     }
 }
 
+/// symbols of the lifecycle explorer used for the exported histories: continuations, new boots, start estimates that move
+/// (merges into a buffered or an already confirmed lifecycle), unusable timestamps, a second ECU
+pub fn history_alphabet() -> Vec<crate::lcgen::Sym> {
+    ["A+2000ms:Cont", "A+65000ms:Cont", "A+2000ms:New", "A+65000ms:New", "A+2000ms:Early30", "A+2000ms:Early3", "A+2000ms:Late3", "A+2000ms:Overlap", "A+2000ms:Ts0", "B+2000ms:Cont"]
+        .iter()
+        .map(|n| crate::lcgen::Sym::parse(n).expect("symbol"))
+        .collect()
+}
+/// `adlt convert -o` on the file of a lifecycle history (every message passes lifecycle detection before the writer):
+/// the output must be byte-identical to the input as serialised by the library
+pub fn cli_history_export(dir: &str, syms: &[crate::lcgen::Sym], uptime0_ms: u64, tag: &str) -> Result<(), String> {
+    let msgs = crate::lcgen::gen_stream(syms, uptime0_ms);
+    let mut src: Vec<u8> = vec![];
+    for m in &msgs {
+        m.to_write(&mut src).map_err(|e| e.to_string())?;
+    }
+    let (fin, fout) = (format!("{dir}/h-{tag}.dlt"), format!("{dir}/hout-{tag}.dlt"));
+    std::fs::write(&fin, &src).map_err(|e| e.to_string())?;
+    let _ = std::fs::remove_file(&fout);
+    let out = std::process::Command::new(crate::rem::adlt_bin()).arg("convert").arg("-o").arg(&fout).arg(&fin).output();
+    let written = std::fs::read(&fout).unwrap_or_default();
+    let _ = std::fs::remove_file(&fin);
+    let _ = std::fs::remove_file(&fout);
+    match out {
+        Err(e) => Err(format!("cannot run adlt: {e}")),
+        Ok(o) if !o.status.success() => Err(format!("adlt convert -o exited with {:?}: {}", o.status.code(), String::from_utf8_lossy(&o.stderr).chars().take(200).collect::<String>())),
+        Ok(_) if written != src => {
+            let got: Vec<u8> = DltMessageIterator::new(0, &written[..]).map(|m| m.standard_header.mcnt).collect();
+            Err(format!("adlt convert -o of the {}-message history is not identical to its input: messages written (by message counter) {:?}", msgs.len(), got))
+        }
+        Ok(_) => Ok(()),
+    }
+}
+
 /// `adlt convert -o` on such a file: the output must be byte-identical
 pub fn cli_window_export(dir: &str, in_buf: usize, big_std_len: usize) -> Result<(), String> {
     let (src, n) = window_file(in_buf, big_std_len);
@@ -454,7 +488,7 @@ impl Prop for C02 {
         // the export through the binary: a large message as first / inner / last message of the file
         {
             let lens: &[usize] = if thorough { &[60_000, 65_000, 65_500, 65_519, 65_520, 65_521, 65_522, 65_530, 65_534, 65_535] } else { &[65_000, 65_520, 65_521, 65_535] };
-            ctx.begin_family("cli_export", &format!("adlt convert -o on 6-message normal-form files, message at position {{0, 2, 5}} with std length in {:?}, into a fresh and over an existing longer output file; and on 600 KB files with a maximum-size message at every buffered-byte count around the reader's low mark: output byte-identical", lens));
+            ctx.begin_family("cli_export", &format!("adlt convert -o on 6-message normal-form files, message at position {{0, 2, 5}} with std length in {:?}, into a fresh and over an existing longer output file; on the files of every lifecycle event sequence up to depth 3 (thorough 4) over a 10-symbol alphabet; and on 600 KB files with a maximum-size message at every buffered-byte count around the reader's low mark: output byte-identical", lens));
             let dir = crate::rem::scratch_dir();
             for &l in lens {
                 for pos in [0usize, 2, 5] {
@@ -485,6 +519,33 @@ impl Prop for C02 {
                     }
                 }
             }
+            // lifecycle histories: every event sequence up to depth 3 (thorough 4) over a 10-symbol alphabet of the
+            // lifecycle explorer (merges into buffered and confirmed lifecycles, queued messages of a second ECU)
+            let mut cli_done = true;
+            {
+                let sig = history_alphabet();
+                let maxd = if thorough { 4 } else { 3 };
+                for k in 1..=maxd {
+                    let fin = enumr::sequences(k, sig.len(), |ix| {
+                        if ctx.mine() {
+                            let syms: Vec<crate::lcgen::Sym> = ix.iter().map(|i| sig[*i]).collect();
+                            let cj = || json!({"family": "cli_export", "history": syms.iter().map(|s| s.name()).collect::<Vec<_>>(), "uptime0_ms": 20000});
+                            ctx.landmark("cli_export_lifecycle_history");
+                            if let Err(e) = cli_history_export(&dir, &syms, 20000, &format!("{}-{}", std::process::id(), ctx.sum.evaluations)) {
+                                ctx.violation("cli_export", "lifecycle_history", &cj, e);
+                            }
+                            ctx.transitions(1);
+                            ctx.eval(true);
+                            ctx.sample(cj);
+                        }
+                        !(ctx.sum.evaluations % 64 == 0 && ctx.out_of_time())
+                    });
+                    if !fin {
+                        cli_done = false;
+                        break;
+                    }
+                }
+            }
             // the same through the binary for a file larger than the reader's buffer: a maximum-size message at every
             // buffered-byte count around the low mark
             let (wlo, whi) = if thorough { (65_400usize, 65_700usize) } else { (65_520, 65_570) };
@@ -501,7 +562,7 @@ impl Prop for C02 {
                 }
             }
             let _ = std::fs::remove_dir_all(&dir);
-            ctx.end_family(true);
+            ctx.end_family(cli_done);
         }
         // file-level export: a large message at every buffered-byte count around the reader's low mark
         {
@@ -564,6 +625,11 @@ impl Prop for C02 {
             if let Some(ne) = case["interleaved_ecus"].as_u64() {
                 if let Err(e) = cli_interleaved_export(&dir, ne as usize, case["msgs"].as_u64().unwrap_or(300) as usize, case["step_ms"].as_u64().unwrap_or(500) as u32) {
                     ctx.violation("cli_export", "interleaved_ecus", &cj, e);
+                }
+            } else if let Some(h) = case["history"].as_array() {
+                let syms: Vec<crate::lcgen::Sym> = h.iter().filter_map(|n| crate::lcgen::Sym::parse(n.as_str().unwrap_or(""))).collect();
+                if let Err(e) = cli_history_export(&dir, &syms, case["uptime0_ms"].as_u64().unwrap_or(20000), "replay") {
+                    ctx.violation("cli_export", "lifecycle_history", &cj, e);
                 }
             } else if let Some(ib) = case["window_in_buf"].as_u64() {
                 if let Err(e) = cli_window_export(&dir, ib as usize, case["big_std_len"].as_u64().unwrap_or(65535) as usize) {
